@@ -638,3 +638,65 @@ func annotationDerived(c *Ctx, f *FuncInfo, e ast.Expr, depth int) bool {
 	}
 	return false
 }
+
+// ruleListMemberSet: R-LIST-MEMBER — writer/reader agreement on list entries whose member is empty.
+func ruleListMemberSet(c *Ctx, r *Report) {
+	r.Rule("R-LIST-MEMBER", "PathsFromProto refuses a list entry whose member message is nil (parseListField), so ProtoFromPaths must always set the member of every entry it creates: in createListField the member is set unconditionally once its fields were mapped, and every created entry is appended", 3)
+	w := c.MustFunc(r, "protomap", "parseListField")
+	f := c.MustFunc(r, "protomap", "createListField")
+	if w == nil || f == nil {
+		return
+	}
+	wi := w.Info()
+	rejects := false
+	ast.Inspect(w.Decl.Body, func(n ast.Node) bool {
+		if is, ok := n.(*ast.IfStmt); ok {
+			if u, ok := ast.Unparen(is.Cond).(*ast.UnaryExpr); ok && u.Op == token.NOT && IsCall(wi, ast.Unparen(u.X), "google.golang.org/protobuf/reflect/protoreflect.Value.IsValid") && terminates(wi, is.Body.List) {
+				rejects = true
+			}
+		}
+		return true
+	})
+	r.Check(rejects, "protomap.parseListField:nil-member-rejected", c.Pos(w.Decl.Pos()), "writer errors on an entry whose member is unset", "parseListField no longer rejects a nil list member (the reader-side obligation below loses its reason)")
+	info := f.Info()
+	// the Set of a message-kind field on the target entry.
+	n := 0
+	ast.Inspect(f.Decl.Body, func(x ast.Node) bool {
+		call, ok := x.(*ast.CallExpr)
+		if !ok || !strings.HasSuffix(FullName(Callee(info, call)), "protoreflect.Message.Set") || len(call.Args) != 2 {
+			return true
+		}
+		if !IsCall(info, ast.Unparen(call.Args[1]), "google.golang.org/protobuf/reflect/protoreflect.ValueOfMessage") {
+			return true
+		}
+		n++
+		cond := 0
+		for _, ft := range c.FactsAt(f, call, false) {
+			if ft.Kind == "cond" && enclosesLexically(c, f, ft.Cond, call) {
+				cond++
+			}
+		}
+		r.Check(cond == 0, fmt.Sprintf("protomap.createListField:member-set#%d", n), c.Pos(call.Pos()), "member set unconditionally after its fields were mapped", "createListField sets the list entry's member only under a condition (e.g. only when some field was populated): an entry that has only its keys is rebuilt with a nil member, which differs from the original message and which PathsFromProto then refuses")
+		return true
+	})
+	if n == 0 {
+		r.Bad("protomap.createListField:member-set", c.Pos(f.Decl.Pos()), "createListField no longer sets the entry's member message")
+	}
+	// every entry appended.
+	ap := 0
+	ast.Inspect(f.Decl.Body, func(x ast.Node) bool {
+		if call, ok := x.(*ast.CallExpr); ok && strings.HasSuffix(FullName(Callee(info, call)), "protoreflect.List.Append") {
+			cond := 0
+			for _, ft := range c.FactsAt(f, call, false) {
+				if ft.Kind == "cond" && enclosesLexically(c, f, ft.Cond, call) {
+					cond++
+				}
+			}
+			if cond == 0 {
+				ap++
+			}
+		}
+		return true
+	})
+	r.Check(ap == 1, "protomap.createListField:entry-appended", c.Pos(f.Decl.Pos()), "every key set yields one appended entry", "createListField does not append exactly one entry per key set unconditionally")
+}
